@@ -9,6 +9,11 @@ def cell(s, n):
 out = ["| seed | round | what it needs in order to manifest (abridged) | how the own check reports it | first message (abridged) |", "|---|---|---|---|---|"]
 n = miss = 0
 for r in rows:
+    meta = json.load(open(f"{ROOT}/seeded/{r['id']}/meta.json"))
+    if meta.get("superseded"):
+        n += 1
+        out.append(f"| {r['id']} | {r.get('round') or ''} | {cell(r.get('needs_to_manifest'), 110)} | superseded | harmless on the fixed tree (fix: 3b0010d, F4); was reported on the tree it was written for |")
+        continue
     rep = r["reports"].get(r["property"])
     if not rep:
         continue
